@@ -226,7 +226,7 @@ def run(ctx):
     item = m.get_class('loki/batch/item.py', 'Item')
     tg = item.function('targets')
     src = ast.unparse(tg.node)
-    ok = 'self.disable' in src and 'self.block' in src and '_get_children(exclude=exclude)' in src
+    ok = X.has(src, 'self.disable') and X.has(src, 'self.block') and X.has(src, '_get_children(exclude=exclude)')
     (ctx.judge('R3', 'Item.targets excludes disable+block') if ok else
      ctx.violation('R3', 'Item.targets', tg.where, 'targets no longer excludes both disabled and blocked dependencies'))
 
